@@ -551,11 +551,12 @@ func (r *Resolver) resolveOneNoCache(ctx context.Context, name, typ string) ([]a
 		if i == 0 || ttl > a.TTL {
 			ttl = a.TTL
 		}
-		name := strings.TrimSuffix(a.Name, ".")
-		if name == want && a.Type == dns.RRType(typ) {
+		// DNS names are compared without regard to case.
+		owned := strings.EqualFold(strings.TrimSuffix(a.Name, "."), want)
+		if owned && a.Type == dns.RRType(typ) {
 			res = append(res, a.Data)
 		}
-		if name == want && a.Type == 5 { // CNAME
+		if owned && a.Type == 5 { // CNAME
 			want = strings.TrimSuffix(a.Data.(string), ".")
 			continue
 		}
